@@ -363,6 +363,10 @@ theorem lhs_facts {c : Ctx} {env : CEnv} (henv : env.cfg = Cfg.fixed) {lhs : CEx
     refine ⟨?_, hl.2⟩
     simp only [regVT, henv, Cfg.fixed, Bool.false_eq_true, ↓reduceIte, typeOfC]
     cases k <;> rfl
+  | imm l s =>
+    simp only [compileExpr, Except.ok.injEq] at hcd
+    subst hcd
+    exact ⟨rfl, by simp [typeOfC]⟩
   | _ => simp [lhsOK] at hl
 
 theorem destWrite_correct {ms : MacroSem} {c : Ctx} (hc : c.ok = true) {lhs : CExpr}
@@ -399,6 +403,14 @@ theorem destWrite_correct {ms : MacroSem} {c : Ctx} (hc : c.ok = true) {lhs : CE
     rw [execIL]
     refine bind_ok_of he ?_
     simp only [hw, typeOfC, ↓reduceIte]
+  | imm l s =>
+    -- an assignable immediate: the IL sets the local of the letter, the C side its immediate
+    simp only [lhsOK, List.contains_eq_mem, decide_eq_true_eq] at hl
+    simp only [destWrite, Except.ok.injEq] at hd
+    subst hd
+    simp only [writeLhsC, Except.ok.injEq] at hC
+    subst hC
+    exact ⟨_, ExecIL_setl he, hinv.writeImm hc hl x⟩
   | _ => simp [lhsOK] at hl
 
 section
@@ -413,8 +425,8 @@ theorem compound_sims {lhs e : CExpr} {cd ce : CE} {σC σIL : MState} {vL vE : 
     ∃ (xl : BitVec (typeOfC lhs).width) (yE : BitVec (typeOfC e).width),
       vL = .bv _ xl ∧ vE = .bv _ yE ∧
       Sim ms σIL cd (typeOfC lhs) (.bv _ xl) ∧ Sim ms σIL ce (typeOfC e) (.bv _ yE) := by
-  have hsd := expr_sim hE henv (hinv.rel.agreeOn _ _) hinv.inv (hWF.mono (by simp)) hL hcd
-  have hse := expr_sim hE henv (hinv.rel.agreeOn _ _) hinv.inv (hWF.mono (by simp)) hEv hce
+  have hsd := expr_sim hE henv (hinv.rel.agreeOn _ _ _) hinv.inv hinv.immVal (hWF.mono (by simp)) hL hcd
+  have hse := expr_sim hE henv (hinv.rel.agreeOn _ _ _) hinv.inv hinv.immVal (hWF.mono (by simp)) hEv hce
   obtain ⟨xl, rfl⟩ := hsd.cval
   obtain ⟨yE, rfl⟩ := hse.cval
   exact ⟨xl, yE, rfl, rfl, hsd, hse⟩
@@ -447,7 +459,7 @@ theorem assign_sim {lhs : CExpr} {op : String} {e : CExpr} {ce : CE} {eff : ILEf
   · subst heq
     simp only [beq_self_eq_true, ↓reduceIte] at hWF
     have hv0 := hv; simp only [compoundExpr] at hv0
-    have hse := expr_sim hE henv (hinv.rel.agreeOn _ _) hinv.inv hWF hv0 hce
+    have hse := expr_sim hE henv (hinv.rel.agreeOn _ _ _) hinv.inv hinv.immVal hWF hv0 hce
     obtain ⟨yE, rfl⟩ := hse.cval
     obtain ⟨hres, _⟩ := c_assign (xl := 0) hop (fun h => absurd rfl h) hv0 hv hv'
     obtain ⟨hdw, hs, hnb⟩ := il_assign (xl := 0) henv hca hcd hcdty h1 hop (fun h => absurd rfl h) hse
